@@ -14,7 +14,7 @@ _REPLAY = """
 import sys
 sys.path.insert(0, '/verif/bounded')
 import c16c_ctor_native as N
-n, bad = N.get_configuration_cases()
+n, bad = N.FAMILIES['get_configuration']()
 violated = bool(bad)
 detail = f'{n} cases; first mismatch: {bad[0] if bad else None}'
 """
@@ -63,7 +63,7 @@ _IT_REPLAY = """
 import sys
 sys.path.insert(0, '/verif/bounded')
 import c16c_ctor_native as N
-n, bad = N.iterator_cases()
+n, bad = N.FAMILIES['iterator']()
 violated = bool(bad)
 detail = f'{n} cases; first mismatch: {bad[0] if bad else None}'
 """
